@@ -263,6 +263,16 @@ def validate(seed, tier):
                 M = M + M.T
             runner.concrete_check('krylov', dict(alg=alg, A=M.tolist(), v=rng.standard_normal(n).tolist(), m=m))
             n_ok += 1
+    # dtype mixes (erased by the symbolic encoding): real / integer start vector with a complex map, complex vector with a real map
+    for alg in ('lanczos', 'arnoldi', 'expm_g'):
+        for n, m in ((2, 2), (3, 2), (4, 3)):
+            M = rng.standard_normal((n, n)) + 1j * rng.standard_normal((n, n))
+            if alg == 'lanczos':
+                M = M + M.conj().T
+            runner.concrete_check('krylov', dict(alg=alg, A=M.tolist(), v=rng.standard_normal(n).tolist(), m=m))
+            runner.concrete_check('krylov', dict(alg=alg, A=M.tolist(), v=[float(x) for x in rng.integers(1, 4, size=n)], m=m, v_int=True))
+            runner.concrete_check('krylov', dict(alg=alg, A=M.real.tolist(), v=(rng.standard_normal(n) + 1j * rng.standard_normal(n)).tolist(), m=m))
+            n_ok += 3
     return dict(concrete_inputs_checked=n_ok)
 
 
